@@ -9,7 +9,8 @@ public attributes:
                    something that is not its current identifier)
   * closure        every value of a reference field (from_segment, to_segment, sid1, sid2, sid, items,
                    segment_names, path.links) is a Line that is one of g.lines (by identity), reports g as
-                   owner, and - when it carries an identifier - is what g.line(identifier) returns;
+                   owner, and - when it carries an identifier (S/P/E/G/O/U: the name; L/C: the ID tag, when it
+                   holds a string) - is what g.line(identifier) returns;
                    the same for every element of every back-reference collection
   * symmetry       for every pair (X, T): number of references from X to T == number of occurrences of X
                    in T's back-reference collections (all collections of T together)
@@ -24,6 +25,14 @@ Generated besides the plain add/rm/rename histories (all through _hist.py profil
   * twins ("copy"/"rm_copy"): a second line with exactly the text of a stored line without identifier (E/G/O/U
     '*', F, C without ID), and removal by instance of one of several lines with the same text (the back-reference
     collections must lose that very object, not an equal one)
+  * one history in six (gen_case index i % 6 == 5; the other five are generated exactly as before) also draws from:
+    - late links with a borrowed identifier ("dup-link-over-placeholder"): a GFA1 link arrives for a step of a stored
+      path that so far only a placeholder link covers (a path over an uncovered step is added first when there is
+      none) and its ID tag is the identifier of another line (a segment, a path, a containment, another link); the
+      link replaces the placeholder, so this is an addition that takes another road to the registry than the addition
+      of an ordinary duplicate.  Refused or not, afterwards every line must still be listed and found under its
+      identifier
+    - identifiers given to connected L/C lines ("giveid": line.set("ID", n), fresh or in use)
 
 Failures found after a step that *raised* are reported under the prefix "after-failed-step-" (the property
 speaks of sequences of additions/removals/..., a rejected call is C08's subject) and end the history, so a
@@ -45,7 +54,8 @@ NOT CHECKED (deliberately, the property text does not demand it or is silent):
   * header lines: g.lines lists per-tag copies of the header (g.headers) whose .gfa is None; they are views,
     not stored lines -> excluded from the ownership clause.
   * *which* collection a back-reference is filed under (dovetails_L vs _R ...): that is C11.
-  * ID-tagged L/C lines are checked for membership in g.lines only, not for g.line(ID) (C09, defect #20).
+  * an L/C line whose ID tag does not hold a string (possible at vlevel 0 only) is checked for membership in
+    g.lines only, not for g.line(ID).
   * the order of elements inside collections.
   * a line whose identifier is also the name of a placeholder (virtual line), or the reverse, is not reported
     as "not found under its identifier" (identifier clashes with merely mentioned names are not pinned down).
@@ -65,16 +75,22 @@ RULE = ("exhaustive: every history of length <= 4 (quick) / <= 5 (thorough) over
         "several dependants per collection, nested and multi-line groups, rm by name/instance, disconnect, rename, "
         "tag edits, identifiers dropped from connected lines (ID tag of L/C deleted in three spellings, E/G/O/U renamed to "
         "'*'), repeated lines without identifier and removal of one of them by instance, 12% calls meant to fail; "
+        "one history in six also with GFA1 links that arrive for a path step covered by a placeholder link only and "
+        "carry the identifier of another line, and with identifiers given to connected L/C lines by set('ID', n) "
+        "(20% calls meant to fail there); "
         "12% of histories start with the version unknown. Non-trivial: at least "
         "one removal/disconnect/rename in a history with at least two additions. Distinct by case hash.")
 
 PROF = H.profile(p_fail=0.12, copy=0.06, rm_copy=0.3, rename_star=0.1, ops={"dropid": 5})
+# one history in six: PROF plus late links that wear the identifier of another line, and set("ID", n) on L/C lines
+PROF_ID = H.profile(p_fail=0.2, copy=0.06, rm_copy=0.3, rename_star=0.1, ops={"dropid": 5, "giveid": 4},
+                    fails={"dup-link-over-placeholder": 14, "giveid-existing": 2})
 CASE_TIMEOUT = 60
 
 COLLS = dict(lib.BACKREF_COLLS)
 COLLS["\n"] = ["paths", "sets"]
 COLLS["G"] = ["sets", "paths"]
-NAMED_RT = ("S", "P", "E", "G", "O", "U", "\n")
+NAMED_RT = ("S", "P", "E", "G", "O", "U", "\n", "L", "C")  # L/C: the identifier is the ID tag (placeholder when absent)
 
 
 def n_exhaustive(tier):
@@ -90,7 +106,7 @@ def budget(tier):
 
 
 def gen_case(rng, tier, i):
-    return H.gen_case(rng, tier, PROF, p_unknown=0.12, vlevels=(1, 1, 1, 1, 1, 1, 0, 2, 3))
+    return H.gen_case(rng, tier, PROF_ID if i % 6 == 5 else PROF, p_unknown=0.12, vlevels=(1, 1, 1, 1, 1, 1, 0, 2, 3))
 
 
 def nontrivial(case):
